@@ -291,6 +291,16 @@ class Table:
             # `r[i]` is the same as `R + z[i]`
             if any(self.equal(args[0], sc) for sc in self.scalars):
                 return args[0]
+        if head == 'idx' and len(args) == 2 and isinstance(args[0], RF) and isinstance(args[1], RF) and \
+                args[1].const() is not None and args[1].const().denominator == 1:
+            # diff(x)[k] is x[k+1] - x[k]  (k >= 0)  /  x[k] - x[k-1]  (k < 0)
+            da = args[0].single_atom()
+            if da is not None and self.atoms[da].head == 'call' and self.atoms[da].extra == ('fn:diff',) and \
+                    len(self.atoms[da].args) == 1 and isinstance(self.atoms[da].args[0], RF):
+                x = self.atoms[da].args[0]
+                k = int(args[1].const())
+                hi, lo = (k + 1, k) if k >= 0 else (k, k - 1)
+                return self.atom('idx', (x, self.const(hi))) - self.atom('idx', (x, self.const(lo)))
         if head == 'elem' and len(args) == 2 and isinstance(args[0], RF):
             # the i-th item of zip(a, b) is (a_i, b_i); of enumerate(a) it is (i, a_i)
             za = args[0].single_atom()
@@ -963,6 +973,9 @@ class Conv:
             return self.power(args[0], args[1])
         if name == 'square' and len(args) == 1:
             return args[0] * args[0]
+        if name in ('logical_and', 'logical_or', 'bitwise_and', 'bitwise_or') and len(args) == 2 and not kw:
+            # np.logical_and(a, b) on boolean masks is a & b
+            return t.atom('binop', (args[0], args[1]), extra='BitAnd' if name.endswith('and') else 'BitOr')
         if name == 'outer' and len(args) == 2 and not kw and self.erase_broadcast:
             # np.outer(a, b) / np.multiply.outer(a, b) is a[:, None] * b[None, :]; broadcast markers are erased
             return args[0] * args[1]
